@@ -176,9 +176,9 @@ func TestVerifC06Flow(t *testing.T) {
 	defer st.Close()
 	viol, _ := os.Create(VOutDir() + "/c06flow.viol")
 	defer viol.Close()
-	n := 60
+	n := 200
 	if VThorough() {
-		n = 400
+		n = 1500
 	}
 	n = VEnvInt("C06_FLOWS", n)
 	for i := 0; i < n; i++ {
